@@ -89,10 +89,14 @@ def run(run, tier):
     # 3. the legacy alias forwards to the same function (sim_kwargs must be a mapping there)
     leg = []
     for i in range(40 if quick else 400):
-        c = L.gen_case(rng, nmax=5); c['entry'] = 'Gillespie_Arbitrary'; c['kwargs'] = False; leg.append(c)
-    SC.run_cases(L, EoN, sim, leg, ['W ' + R.ent_tokens(rng) for _ in leg], oracle=None, nontrivial=L.nontrivial, res=res, label='legacy_alias')
-    alias_err = [x for x in res.mism if x[2].get('entry') == 'Gillespie_Arbitrary']
-    res.mism = [x for x in res.mism if x[2].get('entry') != 'Gillespie_Arbitrary']
+        c = L.gen_case(rng, nmax=5); c['entry'] = 'Gillespie_Arbitrary'; c['kwargs'] = False; c['alias_sim_kwargs'] = i % 4 != 0; leg.append(c)
+    SC.run_cases(L, EoN, sim, leg, ['W ' + R.ent_tokens(rng) for _ in leg], oracle=orc, nontrivial=L.nontrivial, res=res, label='legacy_alias')
+    # called with its default sim_kwargs=None the alias dies in `**sim_kwargs` before simulating anything: a
+    # forwarding defect of the wrapper (C05's forwarding theorem), recorded here and not judged under C03
+    is_default_alias = lambda rp: rp.get('entry') == 'Gillespie_Arbitrary' and not rp.get('alias_sim_kwargs')
+    alias_err = [x for x in res.mism if is_default_alias(x[2])]
+    res.mism = [x for x in res.mism if not is_default_alias(x[2])]
+    res.oracle_bad = [x for x in res.oracle_bad if not is_default_alias(x[3])]
     SC.report(run, PID, L.ENTRY, res, 'Model/Simple.v', 'Props/C03.v')
     if not props['ok']:
         run.violation('C03/proof', 'Props/C03.v no longer checks: %s' % props['log'][-400:], {'broken': 'coq/Props/C03.v', 'log': props['log']}, no_input=True)
